@@ -335,9 +335,12 @@ func (e *notaryEnv) confirm(t *transaction.Transaction) error {
 	e.state()
 	// a confirmation the service answers with an error has sealed nothing (whatever the reason of the refusal:
 	// not awaiting here, refused by the ledger, signatures)
-	if sealedNow := strings.Split(e.prevState, " | ")[0]; rerr != nil && sealedBefore != "" && sealedNow != sealedBefore {
+	// (the ledger may DROP an overdrawing tip while it refuses the call; what must not happen is that the refused
+	// contract itself appears among the sealed transactions)
+	th := hex.EncodeToString(t.Hash[:])
+	if sealedNow := strings.Split(e.prevState, " | ")[0]; rerr != nil && sealedBefore != "" && strings.Contains(sealedNow, th) && !strings.Contains(sealedBefore, th) {
 		for _, pid := range []string{"C15", "C16"} {
-			e.c.Violate(pid, "refused-confirm-sealed", fmt.Sprintf("Confirm was answered with %s, yet the ledger's sealed transactions went from [%s] to [%s] (data %d bytes)", respTag(rerr), sealedBefore, sealedNow, len(t.Data)),
+			e.c.Violate(pid, "refused-confirm-sealed", fmt.Sprintf("Confirm of %s was answered with %s, yet the transaction is now sealed in the ledger (data %d bytes)", th[:8], respTag(rerr), len(t.Data)),
 				map[string]interface{}{"section": "notary", "call": "confirm", "response": respTag(rerr)})
 		}
 	}
